@@ -784,6 +784,85 @@ def run_store(ctx, rng, idx, plan, pols, n_requests, cases, meta, defs, epoch=Fa
         store.close()
 
 
+MODEL_BRANCHES = ['Application Specific Information', 'Object Group', 'Name', 'State', 'Object Type', 'Cryptographic Algorithm',
+                  'Cryptographic Length', 'Unique Identifier', 'Operation Policy Name', 'Cryptographic Usage Mask', 'Certificate Type',
+                  'Sensitive', 'Initial Date']
+MODEL_FETCH = {'Unique Identifier': 'unique_identifier', 'Name': 'names', 'Object Type': 'object_type',
+               'Cryptographic Algorithm': 'cryptographic_algorithm', 'Cryptographic Length': 'cryptographic_length',
+               'Certificate Type': 'certificate_type', 'Operation Policy Name': 'operation_policy_name',
+               'Cryptographic Usage Mask': 'cryptographic_usage_masks', 'State': 'state', 'Initial Date': 'initial_date',
+               'Object Group': 'object_groups', 'Application Specific Information': 'app_specific_info', 'Sensitive': 'sensitive'}
+
+
+def structure_check(ctx):
+    """Fail closed when the shape of the anchored code leaves what Locate.v mirrors: the chain of attribute branches in
+    _process_locate and the attribute -> field / None map of _get_attribute_from_managed_object (read with ast)."""
+    import ast
+    src = (ctx.repo / 'kmip/services/server/engine.py').read_text()
+    tree = ast.parse(src)
+    fns = {n.name: n for n in ast.walk(tree) if isinstance(n, ast.FunctionDef)}
+    problems = []
+
+    def const_of(node):
+        if isinstance(node, ast.Constant) and isinstance(node.value, str):
+            return node.value
+        if isinstance(node, ast.Attribute) and node.attr == 'value' and isinstance(node.value, ast.Attribute):
+            try:
+                return getattr(enums.AttributeType, node.value.attr).value       # enums.AttributeType.STATE.value
+            except AttributeError:
+                return None
+        return None
+
+    # 1. _get_attribute_from_managed_object: name -> set of managed_object fields read, or None
+    fetch = {}
+    node = fns['_get_attribute_from_managed_object'].body
+    chain = [n for n in node if isinstance(n, ast.If)]
+    cur = chain[0] if chain else None
+    while cur is not None:
+        t = cur.test
+        name = const_of(t.comparators[0]) if isinstance(t, ast.Compare) and len(t.comparators) == 1 else None
+        if name is None:
+            problems.append('unrecognised test in _get_attribute_from_managed_object: %s' % ast.dump(t)[:120])
+            break
+        rets = [r for r in ast.walk(ast.Module(body=cur.body, type_ignores=[])) if isinstance(r, ast.Return)]
+        if len(rets) == 1 and isinstance(rets[0].value, ast.Constant) and rets[0].value.value is None:
+            fetch[name] = None
+        else:
+            fetch[name] = sorted({a.attr for b in cur.body for a in ast.walk(b)
+                                  if isinstance(a, ast.Attribute) and isinstance(a.value, ast.Name) and a.value.id == 'managed_object'})
+        cur = cur.orelse[0] if len(cur.orelse) == 1 and isinstance(cur.orelse[0], ast.If) else None
+    for name, field in MODEL_FETCH.items():
+        if fetch.get(name) != [field]:
+            problems.append('%r is fetched from %r (model: managed_object.%s)' % (name, fetch.get(name), field))
+    for name in OTHER_FILTERS:
+        if fetch.get(name, 'missing') is not None:
+            problems.append('%r is no longer answered with None (%r)' % (name, fetch.get(name)))
+    extra = sorted(n for n, v in fetch.items() if v is not None and n not in MODEL_FETCH)
+    if extra:
+        problems.append('attributes with a stored value the model does not know: %r' % extra)
+    # 2. _process_locate: the elif chain after `if attribute is None: continue`
+    branches = []
+    for n in ast.walk(fns['_process_locate']):
+        if isinstance(n, ast.If) and isinstance(n.test, ast.Compare) and isinstance(n.test.left, ast.Name) and n.test.left.id == 'attribute' \
+                and isinstance(n.test.ops[0], ast.Is):
+            if not (len(n.body) == 1 and isinstance(n.body[0], ast.Continue)):
+                problems.append('`attribute is None` no longer continues')
+            cur = n.orelse[0] if n.orelse else None
+            while isinstance(cur, ast.If):
+                nm = const_of(cur.test.comparators[0]) if isinstance(cur.test, ast.Compare) and isinstance(cur.test.left, ast.Name) and cur.test.left.id == 'name' else None
+                if nm is None:
+                    break           # the final `else: if value != attribute` fallback
+                branches.append(nm)
+                cur = cur.orelse[0] if len(cur.orelse) == 1 and isinstance(cur.orelse[0], ast.If) else None
+    if branches != MODEL_BRANCHES:
+        problems.append('attribute branches of _process_locate are %r (model: %r)' % (branches, MODEL_BRANCHES))
+    ctx.cov['structure_check'] = {'fetch_map_entries': len(fetch), 'none_valued': sorted(n for n, v in fetch.items() if v is None),
+                                  'locate_branches': branches, 'problems': problems}
+    if problems:
+        ctx.broken.append({'kind': 'translation', 'name': 'c14.structure_check', 'detail': '; '.join(problems), 'candidates': []})
+    return not problems
+
+
 GRID_PLAN = [
     {'type': 'SYMMETRIC_KEY', 'how': 'create', 'alg': 'AES', 'len': 256, 'owner': 'alice', 'policy': 'open', 'names': [['k1', 'UNINTERPRETED_TEXT_STRING'], ['web', 'URI']],
      'groups': ['grpA', 'prod'], 'asi': [['ssl', 'www.example.com']], 'sensitive': True, 'mask': ['DECRYPT', 'ENCRYPT'], 'state': 'ACTIVE', 'advance': 1},
@@ -857,6 +936,7 @@ def run_grid(ctx, rng, idx, plan, pols, cases, meta, defs):
 
 
 def run(ctx):
+    WIRE['roundtrip'] = WIRE['fallback'] = 0
     ctx.cov['rule'] = ('stores of 0-12 objects built through Register/Create/CreateKeyPair/Activate/Revoke under a controlled clock '
                        '(7 object types, 3 owners, 7 policy names incl. group sections, missing and refusing policies, 4 states, names with both name types, '
                        'object groups, application specific information, sensitive flag, equal and distinct Initial Dates) x conjunctions of 0-4 filters over the '
@@ -865,6 +945,7 @@ def run(ctx):
                        'A case is distinct by (store, requester, filter list, offset, maximum) and non-trivial when it has a filter or a non-empty answer.')
     ctx.regen(only=['attrrules', 'enums'])
     ctx.prove('props/C14.v')
+    structure_check(ctx)
     quick = ctx.tier == 'quick'
     rng = ctx.subrng('locate')
     pols = build_policies()
